@@ -46,7 +46,7 @@ Allows(v, ok, code) == IF ok THEN TRUE \in v.ok
 (* a gRPC status block (headers, HTTP trailers or trailer frame) with status class st and details class dt *)
 StatusVerdict(st, dt) ==
   IF st = "5" THEN (IF dt \in {"absent", "valid"} THEN Exact(5) ELSE AnyErr)
-  ELSE IF st \in {"17", "abc", "neg", "huge"} THEN AnyErr
+  ELSE IF st \in {"17", "abc", "neg", "huge", "wrap", "wrap5"} THEN AnyErr
   ELSE IF st = "00" THEN Loose           \* numerically zero: OK, or a non-OK error, never "error with code 0"
   ELSE Pass                              \* "0" or absent
 
